@@ -578,3 +578,83 @@ class StepExpire(ActorStep):
             out.append(tagged('notify', 'notify_one after expired tokens were re-queued', z3.BoolVal(False)))
         out.append(Cover('expired batch of %d' % res['expired_n']))
         return out
+
+
+def conservation(ctx, st, actor2, extra_toks=()):
+    """every token the subscription held (backlog or outstanding) is afterwards in exactly one of the
+    two places; nothing else appeared"""
+    f = actor_fields(ctx, actor2)
+    bl2 = f['backlog']
+    m2, _ = tracker_parts(ctx, f['outstanding'])
+
+    def in_backlog(t):
+        return z3.Or([z3.And(bl2.n > j, e.tok == t) for j, e in enumerate(bl2.elems)] or [False])
+
+    def in_out(t):
+        return z3.Or([z3.And(u, pm_parts(ctx, v)[0] == t) for u, k, v in m2.slots] or [False])
+    conj = []
+    total = z3.IntVal(0)
+    for i, t in enumerate(st.btoks):
+        conj.append(z3.Implies(st.blen > i, z3.Xor(in_backlog(t), in_out(t))))
+        total = total + z3.If(st.blen > i, 1, 0)
+    for d in st.ds:
+        conj.append(z3.Implies(d.used, z3.Xor(in_backlog(d.tok), in_out(d.tok))))
+        total = total + z3.If(d.used, 1, 0)
+    conj.append(bl2.n + m2.count() == total)
+    return z3.And(conj)
+
+
+class ReceiveDropped(ActorStep):
+    """SubscriptionActor::receive(request) when the caller has gone away (reply cannot be delivered)"""
+    tier = 'T3'
+
+    def __init__(self, ctx, variant, n_out=2, n_back=2):
+        ActorStep.__init__(self, ctx, n_out, n_back, 1, 'x', 'C16.b-receive-' + variant)
+        self.variant = variant
+        self.desc = 'receive(%s) with the reply receiver already dropped: same state change as with a live caller; no token lost; no panic' % variant
+
+    def body(self, ip, p):
+        ctx = ip.ctx
+        from models_async import OneshotTx
+        from framework import run_async
+        st = sym_actor(ctx, p, self.n_out, self.n_back, deleted=False)
+        p.counter += 1
+        tx = OneshotTx(p.counter)
+        ev = ctx.src.enum_variants('SubscriptionRequest')
+        idx = [i for i, (n, _) in enumerate(ev) if n == self.variant][0]
+        mx = p.fresh('max_count')
+        p.assume(z3.And(mx >= 0, mx < 65536))
+        ids, n = sym_ids(p, 1)
+        payload = {'PullMessages': (S(mx, 'u16'), tx), 'AcknowledgeMessages': (Seq([ack_id(ctx, ids[0])], n, 'vec'), tx),
+                   'ModifyDeadline': (Seq([mk(ctx, 'DeadlineModification', ack_id=ack_id(ctx, ids[0]), new_deadline=Enum('Option', 0, {}))], n, 'vec'), tx),
+                   'GetInfo': (tx,), 'GetStats': (tx,)}[self.variant]
+        req = Enum('SubscriptionRequest', idx, {idx: payload})
+        p.receiver_dropped = True
+        fn = ctx.fn('SubscriptionActor', 'receive')
+        coro = run_to_end(ip.call_fn(fn, [Ref(Loc(st.cell), True), req]))
+        run_async(ip, p, coro, budget=0)
+        return {'st': st, 'mx': mx, 'ids': ids, 'n': n, 'log': list(p.log)}
+
+    def post(self, ip, p, res):
+        ctx = ip.ctx
+        st = res['st']
+        f = actor_fields(ctx, st.cell.v)
+        out = [Claim('the failed reply was attempted (handler ran to the end)', any(e[0] == 'oneshot.send-failed' for e in res['log'])),
+               Claim('invariant I after', invariant_actor(ctx, st, st.cell.v))]
+        if self.variant != 'AcknowledgeMessages':
+            out.append(Claim('no token lost or duplicated', conservation(ctx, st, st.cell.v)))
+        else:
+            m2, _ = tracker_parts(ctx, f['outstanding'])
+            out.append(Claim('only the named delivery left the subscription',
+                             z3.And([z3.Implies(z3.And(d.used, z3.Not(z3.And(res['n'] > 0, res['ids'][0] == d.ack))), tracker_has(ctx, f['outstanding'], d))
+                                     for d in st.ds] or [True])))
+        if self.variant == 'PullMessages':
+            k = f['next'] - st.next
+            out.append(Claim('messages handed to the vanished consumer stay outstanding (redelivered after the deadline)',
+                             z3.And([z3.Implies(z3.And(st.blen > j, k > j), tracker_parts(ctx, f['outstanding'])[0].found(ack_id(ctx, st.next + j)))
+                                     for j in range(len(st.btoks))] or [True])))
+            out.append(Claim('handed-out count as for a live caller', k == z3.If(st.blen == 0, 0, z3.If(st.blen < z3.If(res['mx'] > 1, res['mx'], 1), st.blen, z3.If(res['mx'] > 1, res['mx'], 1)))))
+            out.append(Cover('two messages handed to a vanished consumer', k == 2))
+        if self.variant in ('GetInfo', 'GetStats', 'AcknowledgeMessages'):
+            out.append(Claim('backlog unchanged', backlog_is(f['backlog'], st.btoks, st.blen)))
+        return out
